@@ -59,6 +59,12 @@ def templates(tier):
                     for n2 in (3, 6, 9):
                         docs.append(['cat', [g(a, b), ['nest', k or 2, ['cat', [['hard'], T(n2)]]]]])
                         docs.append(['cat', [T(c), g(a, b), ['nest', k or 2, ['cat', [['hard'], T(n2), ['line'], T(d)]]]]])
+                if s == 0:
+                    # a group followed on its line by an align whose own (forced) second line is deeper: the column the
+                    # look-ahead hands to the align decides whether that line is believed to pass the page
+                    for n2 in (2, 4, 7):
+                        docs.append(['cat', [g(a, b), ['align', ['cat', [T(c), ['hard'], T(n2)]]]]])
+                        docs.append(['nest', k or 2, ['cat', [T(2), ['hard'], g(a, b), ['align', ['cat', [T(c), ['hard'], T(n2)]]]]]])
                 for doc in docs:
                     for w in widths:
                         for f in (1.0, 0.6, 0.3):
